@@ -2,6 +2,7 @@
 """check_seed.py <ID> <patch.diff> [--checks C01,C02|all] [--tier quick] [--seed N]
 Runs registered checks against a seeded change on a scratch copy of /repo + harness (nothing in /repo or /verif changes)."""
 import os, sys, subprocess, shutil, json, re, time
+VERIF = os.path.dirname(os.path.dirname(os.path.abspath(__file__)))
 ID, patch = sys.argv[1], os.path.abspath(sys.argv[2])
 checks = [ID]; tier = 'quick'; seed = '1'
 a = sys.argv[3:]
@@ -17,15 +18,15 @@ def sh(cmd, cwd=None, extra=None):
     return p.returncode, p.stdout
 os.makedirs(S + '/out', exist_ok=True)
 sh(f'rsync -a --exclude target --exclude .git /repo/ {S}/repo/')
-sh(f'rsync -a --exclude target /verif/harness/ {S}/harness/')
+sh(f'rsync -a --exclude target {VERIF}/harness/ {S}/harness/')
 sh(f"sed -i 's#/repo/#{S}/repo/#g' {S}/harness/Cargo.toml")
-shutil.copy('/verif/known_findings.json', S + '/out/known_findings.json')
+shutil.copy(VERIF + '/known_findings.json', S + '/out/known_findings.json')
 rc, out = sh(f'patch -p1 < {patch}', cwd=S + '/repo')
 if rc != 0:
     print('patch failed', out); sys.exit(2)
 # share the main harness target dir as a read-only seed for faster builds: copy once
-if os.path.isdir('/verif/harness/target/release'):
-    sh(f'mkdir -p {S}/ht && cp -r /verif/harness/target/release {S}/ht/')
+if os.path.isdir(VERIF + '/harness/target/release'):
+    sh(f'mkdir -p {S}/ht && cp -r {VERIF}/harness/target/release {S}/ht/')
 rc, out = sh('cargo build --release --offline 2>&1', cwd=S + '/harness', extra={'CARGO_TARGET_DIR': S + '/ht', 'RUSTFLAGS': '--cfg krp_verif'})
 if rc != 0:
     print('harness build failed', out[-2000:]); shutil.rmtree(S, ignore_errors=True); sys.exit(2)
